@@ -34,7 +34,18 @@ def sha_files(paths):
     return h.hexdigest()
 
 
+_KEY_CACHE = {}
+
+
 def source_key(extra=""):
+    if extra in _KEY_CACHE:      # one key per process: files edited while a check runs must not split its cache
+        return _KEY_CACHE[extra]
+    k = _source_key(extra)
+    _KEY_CACHE[extra] = k
+    return k
+
+
+def _source_key(extra=""):
     files = []
     for pat in ["src/**/*.rs", "Cargo.toml", "examples/**/*"]:
         files += glob.glob(os.path.join(REPO, pat), recursive=True)
